@@ -18,6 +18,17 @@ fn main() {
         }
         return;
     }
+    if args.len() >= 3 && args[1] == "csv" {
+        // vcheck csv <escaped content>...  (\n \r \t escapes)
+        set_quiet(true);
+        for a in &args[2..] {
+            let data = a.replace("\\n", "\n").replace("\\r", "\r").replace("\\t", "\t");
+            let mut d = Driver::new();
+            d.fs.put("f.csv", data.as_bytes().to_vec());
+            println!("{:?}\n  => {}", data, d.q("SELECT * FROM read_csv('f.csv')").brief());
+        }
+        return;
+    }
     if args.len() >= 3 && args[1] == "sqlfull" {
         set_quiet(true);
         let mut d = Driver::new();
@@ -102,7 +113,9 @@ fn main() {
             "C13" => vharness::checks::c13::run(tier),
             "C14" => vharness::checks::c14::run(tier),
             "C15" => vharness::checks::c15::run(tier),
+            "C17" => vharness::checks::c17::run(tier),
             "C18" => vharness::checks::c18::run(tier),
+            "C20" => vharness::checks::c20::run(tier),
             other => {
                 eprintln!("unknown check {other}");
                 2
